@@ -377,6 +377,11 @@ def rule_c16(prog: Program, col: Collector) -> None:
     okb = is_call_to(rv, "numpy.bincount") and rv[2] and rv[2][0] == A("subset_sizes") and dict(rv[3]).get("weights") == xp
     col.check(okb, sref.where(), sref.short, "aggregation = np.bincount(subset_sizes, weights=x)", construct="bincount",
               necessity="the observation is the per-size SUM of the underlying observation")
+    if okb:
+        ml = dict(rv[3]).get("minlength")
+        col.check(ml == A("number_of_players"), sref.where(), sref.short, "the aggregated vector always has n entries (minlength=self.number_of_players)", construct="bincount-minlength",
+                  necessity="np.bincount returns max(size)+1 entries: when the inner env has no explorable coalition of size n-1 (they are initially known) the observation and the "
+                            "mask are shorter than the declared Box(n) / Discrete(n) spaces")
 
     col.rule("Z1", "every observation leaving the linear env is the size-aggregation of the inner observation; the mask is the aggregated inner mask cast to bool", 3)
     ref = _method(prog, LIN, "action_masks")
